@@ -60,7 +60,7 @@ def frame_matrix(cell, frame):
     return M if not frame else M @ FRAMES[frame].T
 
 
-def build_crystal(number, choice, cell, sites_int, D, start_z=1, occ_cycle=True, container="float64", frame=None):
+def build_crystal(number, choice, cell, sites_int, D, start_z=1, occ_cycle=True, container="float64", frame=None, no_occ=False):
     from chmpy.crystal import Crystal, SpaceGroup, UnitCell, AsymmetricUnit
     from chmpy.core.element import Element
 
@@ -78,6 +78,10 @@ def build_crystal(number, choice, cell, sites_int, D, start_z=1, occ_cycle=True,
         pos = pos.tolist()
     elif container == "float32":
         pos = pos.astype(np.float32)
+    if no_occ:
+        # pairwise: an asymmetric unit given WITHOUT occupancies (every site fully occupied by default) together with special positions
+        occ = np.ones(len(sites_int))
+        return Crystal(uc, sg, AsymmetricUnit(els, pos, labels=labels)), zs, labels, occ
     asym = AsymmetricUnit(els, pos, labels=labels, occupation=occ)
     return Crystal(uc, sg, asym), zs, labels, occ
 
@@ -88,7 +92,7 @@ def check_crystal(part, row, ops, cell, sites_int, D, case, slab_bounds=None, st
     sk = "%d:%s" % (number, choice)
     part.ev()
     try:
-        c, zs, labels, occ = build_crystal(number, choice, cell, sites_int, D, start_z, container=container, frame=case.get("frame"))
+        c, zs, labels, occ = build_crystal(number, choice, cell, sites_int, D, start_z, container=container, frame=case.get("frame"), no_occ=bool(case.get("no_occ")))
         if case.get("variant") == "after-exports":
             # the unit-cell atoms are asked for AFTER the three file exports and a first query have run on the same object (and the
             # dictionary handed out first must itself stay intact): exports are read-only users of the same data
@@ -300,6 +304,7 @@ def plan_for_setting(row, tier, seed):
     special0 = [o[0] for o in orbs if len(o) < len(ops)][:20]                    # special positions first: that is where merging happens
     special0 += [p for p in reps0[:12] if p not in special0][:7]
     cases.append({"number": number, "choice": choice, "D": N, "sites": special0, "cell": cells[0], "slab": SLABS[0], "z0": 7, "variant": "after-refused-calls"})
+    cases.append({"number": number, "choice": choice, "D": N, "sites": special0, "cell": cells[-1], "slab": SLABS[1], "z0": 9, "variant": "no-occupancies", "no_occ": True})
     # the same cell given by lattice VECTORS in another Cartesian frame (what the POSCAR / .gen readers produce): the fractional
     # side is unchanged, Cartesian coordinates must follow the given vectors
     for fi, frame in enumerate(("rotated", "permuted", "mirrored")):
